@@ -229,6 +229,32 @@ def run(ctx, replay=None):
             ctx.fail("matrix_norm", "UnknownOrdRejected", "ord=%r" % (bad,), {"ord": repr(bad), "returned": float(v)})
         except Exception:
             pass
+    # legacy options of the Krylov norms ('d', '2', '1', numpy orders): outside the four norms of the property, so
+    # only mechanism-level consistency is recorded (DRIFT): dense and scipy-sparse planes give the same value, the
+    # quaternion form forwards to the component form, and an unknown option is rejected in both storages
+    rngl = np.random.default_rng(ctx.seed + 31)
+    nlegacy = 0
+    for _ in range(24 if thorough else 8):
+        m_, n_ = int(rngl.integers(1, 5)), int(rngl.integers(1, 5))
+        Fl = rngl.integers(-4, 5, (m_, n_, 4)).astype(float)
+        planes = [np.ascontiguousarray(Fl[..., c]) for c in range(4)]
+        splanes = [sparse.csr_matrix(x) for x in planes]
+        for opt in ("d", "2", "1", 1, np.inf, "fro"):
+            nlegacy += 1
+            try:
+                a, b2 = float(u.normQsparse(*planes, opt)), float(u.normQsparse(*splanes, opt))
+                if abs(a - b2) > 1e-12 * max(abs(a), 1.0):
+                    ctx.drift.append("M:LegacyOptionStorageIndependent normQsparse(opt=%r): dense %r, sparse %r" % (opt, a, b2))
+            except Exception as e:  # noqa
+                ctx.drift.append("M:LegacyOptionRaises normQsparse(opt=%r): %r" % (opt, e))
+        try:
+            a, b2 = float(u.normQ(q_from_float(Fl), "d")), float(u.normQsparse(*planes, "d"))
+            if a != b2:
+                ctx.drift.append("M:normQ('d') differs from normQsparse('d')")
+        except Exception as e:  # noqa
+            ctx.drift.append("M:LegacyOptionRaises normQ('d'): %r" % (e,))
+    ctx.drift = sorted(set(ctx.drift))[:12]
+    ctx.notes["legacy_norm_option_calls"] = nlegacy
     total = 2400 if thorough else 320
     per = total // 16
     events = []
